@@ -760,3 +760,73 @@ def Unsupported_():
 
 
 UNITS = [AttnDesc, ChipDesc, SigDesc, RegData, GetSignature, SrcE500, SigList, ScratchRegs, RegDump, CalloutFFDCAny, CalloutFFDC]
+
+
+# ------------------------------------------------------------------ udparsers.oe500.parseUDToJson: sub-type dispatch
+OE500_PARSERS = {1: "_parse_signature_list", 2: "_parse_register_dump", 3: "_parse_callout_ffdc", 4: "_parse_hb_scratch_regs",
+                 5: "_parse_scratch_reg_sig"}
+
+
+class CRecParser(Contract):
+    """the five section parsers (each proved in its own unit): here only recorded - which one ran, with which arguments"""
+
+    def __init__(self, fname):
+        self.target = UD + fname
+        self.fname = fname
+
+    def model(self, it, version, data):
+        from pyvc.values import ufun, PyStr, lit
+        it.ctx.ghost.setdefault('oe500_calls', []).append((self.fname, version, data))
+        return mkstr([Opq(ufun('oe500_result', PyStr, PyStr)(lit(self.fname)))])
+
+
+class UDDispatch(Unit):
+    prop = "C20"
+    name = "udparsers.oe500.parseUDToJson (sub-type dispatch)"
+    target = UD + "parseUDToJson"
+
+    @property
+    def contracts(self):
+        return [CRecParser(n) for n in OE500_PARSERS.values()]
+
+    def inputs(self, S):
+        return dict(subtype=S.int("subtype", 0, 255), version=S.int("version", 0, 255), data=S.bytes("data", kind='memoryview'))
+
+    def check(self, P, inp, old, out):
+        if not P.symbolic:
+            import json
+            if inp['subtype'] not in OE500_PARSERS:
+                P.prove(out.returned and json.loads(out.value) is None, "unsupported sub-types yield JSON null (the caller then keeps the hex dump)")
+            else:
+                from udparsers.oe500 import oe500
+                try:
+                    want = ('r', getattr(oe500, OE500_PARSERS[inp['subtype']])(inp['version'], inp['data']))
+                except Exception as e:
+                    want = ('e', type(e))
+                got = ('r', out.value) if out.returned else ('e', out.exc_class)
+                P.prove(got == want, "sub-type 1..5 runs exactly its parser")
+            return
+        from pyvc.values import ufun, PyStr, lit
+        from pyvc.models import DumpedStr
+        ctx = P.ctx
+        calls = ctx.ghost.get('oe500_calls', [])
+        P.prove(out.returned, "returns")
+        if not out.returned:
+            return
+        hit = None
+        for k, fname in OE500_PARSERS.items():
+            if branch(Eq(inp['subtype'], k)):
+                hit = fname
+                break
+        if hit is None:
+            P.prove(calls == [], "no section parser runs for an unsupported sub-type")
+            P.prove(isinstance(out.value, DumpedStr) and out.value.value is None or out.value == 'null',
+                    "unsupported sub-types yield JSON null (the caller then keeps the hex dump)")
+            return
+        P.prove(len(calls) == 1 and calls[0][0] == hit, "sub-type %s runs exactly its parser" % "1..5")
+        if len(calls) == 1:
+            P.prove(Eq(calls[0][1], inp['version']) and calls[0][2] is inp['data'], "version and payload are passed through unchanged")
+        P.prove(Eq(out.value, mkstr([Opq(ufun('oe500_result', PyStr, PyStr)(lit(hit)))])), "the parser's result is returned as is")
+
+
+UNITS = UNITS + [UDDispatch]
